@@ -6,14 +6,40 @@ set -u
 cd "$(dirname "$0")"
 export GOFLAGS=-mod=mod GOPROXY=off GOSUMDB=off GOTOOLCHAIN=local
 export VERIF_ROOT="$(pwd)"
+REPO="${VERIF_REPO:-/repo}"
 mkdir -p bin evidence replays
 if [ "${1:-}" = "selftest" ]; then
   go test -count=1 ./engine/... ./mcbor/... ./refmodel/... 2>&1
   exit $?
 fi
+id="${1:-}"
+if [ "$id" = "replay" ] && [ -f "${2:-}" ]; then
+  id=$(sed -n 's/.*"property": *"\([A-Z0-9]*\)".*/\1/p' "$2" | head -1)
+fi
+instr=0
+case "$id" in C07|C15|C16|C17|C18) instr=1 ;; esac
+if [ "$instr" = 1 ]; then
+  # checks that need the write footprint / map-iteration order / scheduling points:
+  # instrument /repo's current working tree into a scratch overlay and build against it
+  scratch=$(mktemp -d /tmp/verif-instr.XXXXXX)
+  trap 'rm -rf "$scratch"' EXIT
+  ok=1
+  out=$(go build -o bin/vinstr ./cmd/vinstr 2>&1) || ok=0
+  if [ $ok = 1 ]; then out=$(./bin/vinstr -repo "$REPO" -rt "$(pwd)/_rt" -out "$scratch" 2>&1) || ok=0; fi
+  if [ $ok = 1 ]; then out=$(go build -tags "verif instr" -overlay "$scratch/overlay.json" -o bin/vcheck-instr ./cmd/vcheck 2>&1) || ok=0; fi
+  if [ $ok = 1 ]; then
+    cp "$scratch/instrumentation.json" bin/instrumentation.json
+    rm -rf "$scratch"; trap - EXIT
+    ./bin/vcheck-instr "$@"
+    exit $?
+  fi
+  echo "NOTE instrumented build failed; falling back to the uninstrumented build (reduced claim, see evidence):"
+  echo "$out" | head -20
+  rm -rf "$scratch"; trap - EXIT
+fi
 out=$(go build -tags verif -o bin/vcheck ./cmd/vcheck 2>&1)
 if [ $? -ne 0 ]; then
-  echo "HARNESS-ERROR build of vcheck against /repo failed:"
+  echo "HARNESS-ERROR build of vcheck against $REPO failed:"
   echo "$out"
   exit 2
 fi
